@@ -156,8 +156,14 @@ def replay(d):
 
 def check(run_):
     run_.level = "other"
-    run_.explanation = ("bounded: histories of runs over a shared cache directory and simulated crash points of the cache write on the real "
-                        "Balancer, each compared with the uncached run; plus a syntactic obligation on what reaches the cache key")
+    run_.explanation = ("deductive for the cache manager over a ghost file system (write_cache: the entry under its final name is untouched until the atomic "
+                        "rename and then holds exactly the serialised data, nothing else changes; load_cache: the parsed stored text or ValueError; is_cached); "
+                        "the transparency claim itself (a cached run returns what the uncached run returns) needs determinism of the whole pipeline and is a bounded "
+                        "stand-in: histories of runs over a shared cache directory and simulated crash points of the cache write on the real Balancer, each "
+                        "compared with the uncached run; plus a syntactic obligation on what reaches the cache key")
+    run_.deductive(["contracts.cache"])
+    run_.trust("operating system / json: open('w') truncates, json.dump leaves DUMPS(v) in the file, os.replace is an atomic rename, LOADS(DUMPS(v)) == v; "
+               "a crash is a stop between two of these calls or inside json.dump (only the temporary file holds a prefix); fsync / power loss not modelled")
     args = key_arguments()
     run_.data_obligation("frame:cache-key-covers-configuration",
                          {"batch", "confidence_threshold", "reaction_col", "id_col", "remove_aam"} <= args,
